@@ -589,6 +589,10 @@ def valid(m, op):
         if k == 'add_fp' and (op['blob'] in m.blobs or op['blob'] in m.dead_blobs):
             return False
         return _valid_rr(m, op)
+    if k in ('rm_file', 'rm_link') and m.hybrid and (m.hybrid.get('part_offset') or 0) > 64:
+        # outside the modelled domain: shrinking an image whose hybrid partition starts far inside it (whether the start
+        # still lies inside the image is only known at mastering time, and write_fp fails with struct.error when not)
+        return False
     if k == 'rm_file':
         n = m.get(op['ns'], op['path'])
         if n is None or n.kind != 'file' or n.blob == 'cat':
